@@ -111,6 +111,7 @@ type Cfg struct {
 	PHNil          bool  `json:"ph_nil,omitempty"`          // the panic handler is explicitly nil (WithPanicHandler(nil) / SetPanicHandler(nil) after a real one)
 	PHRepublish    bool  `json:"ph_republish,omitempty"`    // the panic handler re-publishes an event of the panicking handler's type (a retry)
 	PersistTimeout bool  `json:"persist_timeout,omitempty"` // WithPersistenceTimeout(1h) next to the store: it bounds the append only
+	ObsTwice       bool  `json:"obs_twice,omitempty"`       // WithObservability given twice (an independent observer first)
 	HookPublish    int   `json:"hook_publish,omitempty"`    // 1..4: that hook (before, beforectx, after, afterctx) publishes one nested event per top-level publish
 }
 
@@ -188,27 +189,29 @@ type Engine struct {
 	depth  int
 	failed bool
 
-	mu            sync.Mutex
-	clock         uint64
-	Trace         []TEv
-	tokens        uint64
-	asyncGot      map[[2]uint64]int // (reg, eid) -> count
-	asyncWant     map[[2]uint64][2]int
-	asyncPanic    map[[2]uint64]int
-	pubs          map[uint64]*pubInfo
-	captured      []capturedCtx
-	cancels       []context.CancelFunc
-	persisted     []persistedEv
-	subCancels    []context.CancelFunc
-	inHookPub     bool
-	inPHPub       bool
-	syncPanicType int
-	mainGoid      int64
-	replay        *replayFrame
-	ObsImpl       ebu.Observability // overrides the recording Observability when Cfg.Obs is set
-	execLog       map[string]int
-	appendN       int
-	Store         *ebu.MemoryStore
+	mu             sync.Mutex
+	clock          uint64
+	Trace          []TEv
+	tokens         uint64
+	asyncGot       map[[2]uint64]int // (reg, eid) -> count
+	asyncWant      map[[2]uint64][2]int
+	asyncPanic     map[[2]uint64]int
+	pubs           map[uint64]*pubInfo
+	captured       []capturedCtx
+	cancels        []context.CancelFunc
+	persisted      []persistedEv
+	extraObs       *balanceObs
+	obsCtxMismatch string // the first complete callback that was handed another context than its start returned
+	subCancels     []context.CancelFunc
+	inHookPub      bool
+	inPHPub        bool
+	syncPanicType  int
+	mainGoid       int64
+	replay         *replayFrame
+	ObsImpl        ebu.Observability // overrides the recording Observability when Cfg.Obs is set
+	execLog        map[string]int
+	appendN        int
+	Store          *ebu.MemoryStore
 
 	Viol func(sig, desc string)
 
@@ -358,6 +361,12 @@ func NewWith(drivers []evt.Driver, p *Program, viol func(sig, desc string), obsF
 	}
 	if c.AfterCtx {
 		opts = append(opts, ebu.WithAfterPublishContext(func(ctx context.Context, t reflect.Type, ev any) { e.hook("hook.afterctx", ctx, t, ev) }))
+	}
+	if c.Obs && c.ObsTwice {
+		// the option given twice: whatever the bus makes of the earlier observer (replaced, or served as
+		// well), the callbacks it does receive are balanced and get their own contexts back
+		e.extraObs = &balanceObs{}
+		opts = append(opts, ebu.WithObservability(e.extraObs))
 	}
 	if c.Obs {
 		if e.ObsImpl != nil {
@@ -1112,7 +1121,36 @@ func (s *failStore) Read(ctx context.Context, from ebu.Offset, limit int) ([]*eb
 	return s.inner.Read(ctx, from, limit)
 }
 
-type obsRec struct{ e *Engine }
+type obsRec struct {
+	e        *Engine
+	rmu      sync.Mutex
+	returned map[uint64]context.Context // token -> the context its start callback returned
+}
+
+// keep remembers the context a start callback returns; same reports whether a complete callback was
+// handed that very context (not a copy, not a child of it).
+func (o *obsRec) keep(t uint64, ctx context.Context) context.Context {
+	o.rmu.Lock()
+	if o.returned == nil {
+		o.returned = map[uint64]context.Context{}
+	}
+	o.returned[t] = ctx
+	o.rmu.Unlock()
+	return ctx
+}
+
+func (o *obsRec) same(kind string, t uint64, ctx context.Context) {
+	o.rmu.Lock()
+	want, ok := o.returned[t]
+	o.rmu.Unlock()
+	if ok && want != ctx {
+		o.e.mu.Lock()
+		if o.e.obsCtxMismatch == "" {
+			o.e.obsCtxMismatch = kind
+		}
+		o.e.mu.Unlock()
+	}
+}
 
 func (o *obsRec) tok() uint64 {
 	o.e.mu.Lock()
@@ -1126,25 +1164,28 @@ func (o *obsRec) OnPublishStart(ctx context.Context, eventType string, event any
 	t := o.tok()
 	id, _ := o.e.idOfAny(event)
 	o.e.stamp(TEv{K: "obs.pub.start", EID: id, Tok: t, Par: tokOf(ctx, "pub"), Info: eventType})
-	return context.WithValue(ctx, obsKey("pub"), t)
+	return o.keep(t, context.WithValue(ctx, obsKey("pub"), t))
 }
 func (o *obsRec) OnPublishComplete(ctx context.Context, eventType string) {
+	o.same("publish", tokOf(ctx, "pub"), ctx)
 	o.e.stamp(TEv{K: "obs.pub.end", Tok: tokOf(ctx, "pub"), Info: eventType})
 }
 func (o *obsRec) OnHandlerStart(ctx context.Context, eventType string, async bool) context.Context {
 	t := o.tok()
 	o.e.stamp(TEv{K: "obs.h.start", Tok: t, Par: tokOf(ctx, "pub"), Async: async, Info: eventType})
-	return context.WithValue(ctx, obsKey("h"), t)
+	return o.keep(t, context.WithValue(ctx, obsKey("h"), t))
 }
 func (o *obsRec) OnHandlerComplete(ctx context.Context, _ time.Duration, err error) {
+	o.same("handler", tokOf(ctx, "h"), ctx)
 	o.e.stamp(TEv{K: "obs.h.end", Tok: tokOf(ctx, "h"), Par: tokOf(ctx, "pub"), Err: err != nil})
 }
 func (o *obsRec) OnPersistStart(ctx context.Context, eventType string, position int64) context.Context {
 	t := o.tok()
 	o.e.stamp(TEv{K: "obs.persist.start", Tok: t, Par: tokOf(ctx, "pub"), Info: eventType})
-	return context.WithValue(ctx, obsKey("persist"), t)
+	return o.keep(t, context.WithValue(ctx, obsKey("persist"), t))
 }
 func (o *obsRec) OnPersistComplete(ctx context.Context, _ time.Duration, err error) {
+	o.same("persist", tokOf(ctx, "persist"), ctx)
 	o.e.stamp(TEv{K: "obs.persist.end", Tok: tokOf(ctx, "persist"), Par: tokOf(ctx, "pub"), Err: err != nil})
 }
 
@@ -1152,4 +1193,86 @@ func (o *obsRec) OnPersistComplete(ctx context.Context, _ time.Duration, err err
 func (p *Program) JSON() json.RawMessage {
 	b, _ := json.Marshal(p)
 	return b
+}
+
+// balanceObs is an independent Observability that only checks its own books: every start it sees is
+// completed once, with the context it returned.
+type balanceObs struct {
+	mu       sync.Mutex
+	next     uint64
+	open     map[uint64]context.Context
+	starts   [3]int
+	ends     [3]int
+	mismatch string
+}
+
+type balKey int
+
+func (b *balanceObs) start(kind int, ctx context.Context) context.Context {
+	b.mu.Lock()
+	defer b.mu.Unlock()
+	if b.open == nil {
+		b.open = map[uint64]context.Context{}
+	}
+	b.next++
+	b.starts[kind]++
+	out := context.WithValue(ctx, balKey(kind), b.next)
+	b.open[b.next] = out
+	return out
+}
+
+func (b *balanceObs) end(kind int, ctx context.Context) {
+	b.mu.Lock()
+	defer b.mu.Unlock()
+	b.ends[kind]++
+	t, _ := ctx.Value(balKey(kind)).(uint64)
+	want, ok := b.open[t]
+	switch {
+	case !ok:
+		if b.mismatch == "" {
+			b.mismatch = fmt.Sprintf("a complete callback (kind %d) received a context none of this observer's open starts returned (token %d)", kind, t)
+		}
+	case want != ctx:
+		if b.mismatch == "" {
+			b.mismatch = fmt.Sprintf("a complete callback (kind %d) received a copy / child of the context its start returned", kind)
+		}
+		delete(b.open, t)
+	default:
+		delete(b.open, t)
+	}
+}
+
+func (b *balanceObs) OnPublishStart(ctx context.Context, _ string, _ any) context.Context {
+	return b.start(0, ctx)
+}
+func (b *balanceObs) OnPublishComplete(ctx context.Context, _ string) { b.end(0, ctx) }
+func (b *balanceObs) OnHandlerStart(ctx context.Context, _ string, _ bool) context.Context {
+	return b.start(1, ctx)
+}
+func (b *balanceObs) OnHandlerComplete(ctx context.Context, _ time.Duration, _ error) { b.end(1, ctx) }
+func (b *balanceObs) OnPersistStart(ctx context.Context, _ string, _ int64) context.Context {
+	return b.start(2, ctx)
+}
+func (b *balanceObs) OnPersistComplete(ctx context.Context, _ time.Duration, _ error) { b.end(2, ctx) }
+
+// problem reports what is wrong with the observer's books after the program has finished.
+func (b *balanceObs) problem() string {
+	b.mu.Lock()
+	defer b.mu.Unlock()
+	if b.mismatch != "" {
+		return b.mismatch
+	}
+	if b.starts != b.ends {
+		return fmt.Sprintf("an observer given by an earlier WithObservability option saw %v publish/handler/persist starts and %v completes", b.starts, b.ends)
+	}
+	return ""
+}
+
+// ExtraObsProblem reports what is wrong with the books of the observer given by the earlier of two
+// WithObservability options ("" if there is none or nothing is wrong).
+func (e *Engine) ExtraObsProblem() string {
+	if e.extraObs == nil {
+		return ""
+	}
+	return e.extraObs.problem()
 }
